@@ -15,7 +15,7 @@
      - hence every run without new ticks/arrivals is finite, and when no thread can move every
        call has returned, the queue is empty and all workers are idle, i.e. every job was loaded
        and its Future resolved                                               (cache_all_complete)
-   Loader termination is built in (a WLoading worker can always step); fairness is the usual
+   Loader termination is built in (a ClwLoading worker can always step); fairness is the usual
    assumption that an enabled thread eventually runs.  What is missing for a full proof: a
    step-level refinement between cache_impl.go and CacheLive.v; the link is the scenario-level
    correspondence of vlib/c06.py (bursts on the real cache under faketime, watchdog, the replay
